@@ -175,6 +175,10 @@ def run(ctx):
         do_case(ctx, {"not_of": x})
     for _ in range(n_models):
         a, o, t = gen_valid(ctx.rng, ctx.quick, wide_p=0.02, empty_p=0.04)
+        if ctx.rng.random() < 0.15:
+            # the model is the OUTPUT of another operation (assume / reduce / negate / Not / Imply / a JSON, base64, pickle or
+            # deepcopy round trip, one or two of them) applied to a generated valid model
+            a, o, t = gen_derived(ctx.rng, ctx.quick); ctx.tags["derived-model-stream"] += 1
         do_case(ctx, with_history(ctx, {"ast": a}, t))
     for _ in range(n_models):
         for _ in range(20):
